@@ -6362,6 +6362,13 @@ static void fini (hawk_mod_t* mod, hawk_rtx_t* rtx)
 			rdp->sys_list.ctx.readbuf_capa = 0;
 		}
 
+		/* close the files, sockets, directories and multiplexers that the script has left open.
+		 * __fini_sys_list() frees the nodes only */
+		while (rdp->sys_list.used.next != (sys_node_t*)&rdp->sys_list.used)
+		{
+			free_sys_node (rtx, &rdp->sys_list, rdp->sys_list.used.next);
+		}
+
 		__fini_sys_list (rtx, &rdp->sys_list);
 
 		hawk_rbt_delete (mctx->rtxtab, &rtx, HAWK_SIZEOF(rtx));
